@@ -497,6 +497,14 @@ FN_ARITY = {
 
 def fn(name: str, *args) -> T:
     args = tuple(num(a) for a in args)
+    if name == "sigmoid":  # by definition, so that identities between sigmoid, exp and log are polynomial
+        return div(ONE, add(ONE, fn("exp", neg(args[0]))))
+    if name == "exp" and args[0].op == "fn" and args[0].args[0] == "log":
+        return args[0].args[1]
+    if name == "exp" and args[0].op == "neg" and args[0].args[0].op == "fn" and args[0].args[0].args[0] == "log":
+        return div(ONE, args[0].args[0].args[1])
+    if name == "log" and args[0].op == "fn" and args[0].args[0] == "exp":
+        return args[0].args[1]
     if all(isc(a) for a in args):
         v = _fn_float(name, [float(cval(a)) for a in args])
         # fold only when exactly representable in an obvious way
@@ -785,7 +793,8 @@ def diff(roots: List[T], wrt: List[T]) -> List[List[T]]:
             elif op == "*":
                 r = add(mul(d[a[0]], a[1]), mul(a[0], d[a[1]]))
             elif op == "/":
-                r = div(sub(mul(d[a[0]], a[1]), mul(a[0], d[a[1]])), mul(a[1], a[1]))
+                # a0'/a1 - (a0/a1) * a1'/a1: only the node's own divisor appears as a denominator (no a1*a1 node)
+                r = sub(div(d[a[0]], a[1]), div(mul(n, d[a[1]]), a[1]))
             elif op == "neg":
                 r = neg(d[a[0]])
             elif op == "ite":
@@ -1164,3 +1173,318 @@ def _replay_side(t: T, ctx: Z3Ctx):
             c = z3.Function("cos", z3.RealSort(), z3.RealSort())(a[0])
             ctx.side += [z * c == s, s * s + c * c == 1]
             ctx.note("tan*cos==sin")
+
+
+# ------------------------------------------------------------------ canonical polynomial (pre-solver normalisation)
+class PolyTooLarge(Exception):
+    pass
+
+
+def shared_nodes(t: T, min_size: int) -> set:
+    """Arithmetic sub-terms of t with at least two parents and at least `min_size` nodes (candidates for abstraction)."""
+    order = postorder([t])
+    indeg: Dict[T, int] = {}
+    sz: Dict[T, int] = {}
+    for n in order:
+        ks = kids(n)
+        sz[n] = 1 + sum(sz[k] for k in ks)  # tree size (upper bound of the DAG size): fine as a heuristic
+        for k in ks:
+            indeg[k] = indeg.get(k, 0) + 1
+    return {n for n in order if indeg.get(n, 0) >= 2 and n.op in ("+", "sum", "*") and sz[n] >= min_size}
+
+
+def polynomial(t: T, limit: int = 60000, opaque: Optional[set] = None) -> Dict[tuple, Fraction]:
+    """Expand a division-free arithmetic term into a canonical polynomial {monomial: coefficient} over *atoms*: variables
+    and every non-arithmetic sub-term (function applications, ite, floor, division nodes), identified by hash-consing.
+    Monomials are sorted tuples ((atom_id, power), ...). sin(a)^2 is reduced to 1 - cos(a)^2. The zero polynomial means the
+    term vanishes for every value of the atoms. Raises PolyTooLarge beyond `limit` monomials."""
+    memo: Dict[T, Dict[tuple, Fraction]] = {}
+    atoms: Dict[T, int] = {}
+    sin_of: Dict[int, int] = {}  # atom id of sin(a) -> atom id of cos(a)
+
+    def atom(n):
+        k = atoms.get(n)
+        if k is None:
+            k = atoms[n] = len(atoms)
+            if n.op == "fn" and n.args[0] == "sin":
+                c = fn("cos", n.args[1])
+                kc = atoms.get(c)
+                if kc is None:
+                    kc = atoms[c] = len(atoms)
+                sin_of[k] = kc
+        return k
+
+    def padd(a, b, sb=1):
+        r = dict(a)
+        for m, c in b.items():
+            v = r.get(m, 0) + sb * c
+            if v == 0:
+                r.pop(m, None)
+            else:
+                r[m] = v
+        if len(r) > limit:
+            raise PolyTooLarge()
+        return r
+
+    def mmul(m1, m2):
+        if not m1:
+            return m2
+        if not m2:
+            return m1
+        d = dict(m1)
+        for a, p in m2:
+            d[a] = d.get(a, 0) + p
+        return tuple(sorted(d.items()))
+
+    def reduce_trig(m, c):
+        """Rewrite sin^p (p >= 2) using sin^2 = 1 - cos^2; returns list of (monomial, coeff)."""
+        for a, p in m:
+            if p >= 2 and a in sin_of:
+                rest = tuple((x, q) for x, q in m if x != a)
+                lower = mmul(rest, ((a, p - 2),)) if p > 2 else rest
+                out = reduce_trig(lower, c)
+                out += reduce_trig(mmul(lower, ((sin_of[a], 2),)), -c)
+                return out
+        return [(m, c)]
+
+    def pmul(a, b):
+        if len(a) * len(b) > 40 * limit:
+            raise PolyTooLarge()
+        r: Dict[tuple, Fraction] = {}
+        for m1, c1 in a.items():
+            for m2, c2 in b.items():
+                m = mmul(m1, m2)
+                c = c1 * c2
+                items = reduce_trig(m, c) if sin_of and any(p >= 2 and x in sin_of for x, p in m) else [(m, c)]
+                for mm, cc in items:
+                    v = r.get(mm, 0) + cc
+                    if v == 0:
+                        r.pop(mm, None)
+                    else:
+                        r[mm] = v
+        if len(r) > limit:
+            raise PolyTooLarge()
+        return r
+
+    for n in postorder([t]):
+        op = n.op
+        if opaque is not None and n in opaque and n is not t:
+            memo[n] = {((atom(n), 1),): Fraction(1)}
+        elif op == "c":
+            v = cval(n)
+            if isinstance(v, bool):
+                raise PolyTooLarge()
+            memo[n] = {(): Fraction(v)} if v != 0 else {}
+        elif op == "+":
+            memo[n] = padd(memo[n.args[0]], memo[n.args[1]])
+        elif op == "sum":
+            r = {}
+            for k in n.args:
+                r = padd(r, memo[k])
+            memo[n] = r
+        elif op == "neg":
+            memo[n] = {m: -c for m, c in memo[n.args[0]].items()}
+        elif op == "*":
+            memo[n] = pmul(memo[n.args[0]], memo[n.args[1]])
+        elif n.sort == B:
+            memo[n] = {}
+        else:
+            memo[n] = {((atom(n), 1),): Fraction(1)}
+    return memo[t]
+
+
+def rational_zero(t: T, limit: int = 40000, depth: int = 0) -> bool:
+    """Sufficient test for `t == 0 wherever all divisors are non-zero`, for sums of many fractions with different
+    denominators (where a single common denominator explodes): every division a/b becomes a * R_b with a reciprocal atom R_b;
+    the expanded polynomial is grouped by the set of reciprocal atoms each monomial contains, and every group is cleared of
+    its own denominators only (multiplied by prod_b b^(K_b - k)) and must expand to the zero polynomial. Groups vanishing
+    separately imply the sum vanishes; the converse does not hold (then the caller falls back to the solver)."""
+    recips: Dict[int, T] = {}
+    sqrts: Dict[int, T] = {}
+
+    memo: Dict[T, Dict[tuple, Fraction]] = {}
+    atoms: Dict[object, int] = {}
+    sin_of: Dict[int, int] = {}
+
+    def atom(key):
+        k = atoms.get(key)
+        if k is None:
+            k = atoms[key] = len(atoms)
+        return k
+
+    def padd(a, b):
+        r = dict(a)
+        for m, c in b.items():
+            v = r.get(m, 0) + c
+            if v == 0:
+                r.pop(m, None)
+            else:
+                r[m] = v
+        if len(r) > limit:
+            raise PolyTooLarge()
+        return r
+
+    def mmul(m1, m2):
+        if not m1:
+            return m2
+        if not m2:
+            return m1
+        d = dict(m1)
+        for a, p in m2:
+            d[a] = d.get(a, 0) + p
+        return tuple(sorted(d.items()))
+
+    def pmul(a, b):
+        if len(a) * len(b) > 60 * limit:
+            raise PolyTooLarge()
+        r: Dict[tuple, Fraction] = {}
+        for m1, c1 in a.items():
+            for m2, c2 in b.items():
+                m = mmul(m1, m2)
+                v = r.get(m, 0) + c1 * c2
+                if v == 0:
+                    r.pop(m, None)
+                else:
+                    r[m] = v
+        if len(r) > limit:
+            raise PolyTooLarge()
+        return r
+
+    def expand(root):
+        for n in postorder([root]):
+            if n in memo:
+                continue
+            op = n.op
+            if op == "c":
+                v = cval(n)
+                if isinstance(v, bool):
+                    raise PolyTooLarge()
+                memo[n] = {(): Fraction(v)} if v != 0 else {}
+            elif op == "+":
+                memo[n] = padd(memo[n.args[0]], memo[n.args[1]])
+            elif op == "sum":
+                r = {}
+                for k in n.args:
+                    r = padd(r, memo[k])
+                memo[n] = r
+            elif op == "neg":
+                memo[n] = {m: -c for m, c in memo[n.args[0]].items()}
+            elif op == "*":
+                memo[n] = pmul(memo[n.args[0]], memo[n.args[1]])
+            elif op == "/":
+                b = n.args[1]
+                if isc(b):
+                    memo[n] = {m: c / Fraction(cval(b)) for m, c in memo[n.args[0]].items()}
+                else:
+                    cf = Fraction(1)
+                    while b.op == "*" and isc(b.args[0]):  # c * b' -> (1/c) * R_b'
+                        cf *= Fraction(cval(b.args[0]))
+                        b = b.args[1]
+                    if b.op == "neg":
+                        cf, b = -cf, b.args[0]
+                    k = atom(("R", b))
+                    recips[k] = b
+                    memo[n] = pmul(memo[n.args[0]], {((k, 1),): 1 / cf})
+            elif n.sort == B:
+                memo[n] = {}
+            else:
+                k = atom(n)
+                if op == "fn" and n.args[0] == "sqrt":
+                    sqrts[k] = n.args[1]
+                memo[n] = {((k, 1),): Fraction(1)}
+        return memo[root]
+
+    def reduce_sqrt(P):
+        """sqrt(s)^2 -> s (the defining relation of the sqrt atoms)."""
+        if not sqrts:
+            return P
+        for _ in range(8):
+            todo = [(m, c) for m, c in P.items() if any(a in sqrts and p >= 2 for a, p in m)]
+            if not todo:
+                return P
+            P = dict(P)
+            for m, c in todo:
+                del P[m]
+                term = {tuple((a, p % 2 if a in sqrts else p) for a, p in m if not (a in sqrts and p % 2 == 0)): c}
+                for a, p in m:
+                    if a in sqrts and p >= 2:
+                        base = expand(sqrts[a])
+                        for _k in range(p // 2):
+                            term = pmul(term, base)
+                P = padd(P, term)
+        return P
+
+    P = reduce_sqrt(expand(t))
+    for _round in range(4):
+        if not P:
+            return True
+        if not any(a in recips for m in P for a, _ in m):
+            return False
+        groups: Dict[tuple, Dict[tuple, Fraction]] = {}
+        for m, c in P.items():
+            key = tuple(sorted(a for a, _ in m if a in recips))
+            groups.setdefault(key, {})[m] = c
+        rest: Dict[tuple, Fraction] = {}
+        for key, G in groups.items():
+            if not key:
+                return False  # a non-zero polynomial part without any fraction cannot be cancelled by proper fraction groups (sufficient test fails)
+            K = {a: max(dict(m).get(a, 0) for m in G) for a in key}
+            dpow: Dict[tuple, Dict[tuple, Fraction]] = {}
+            Q: Dict[tuple, Fraction] = {}
+            for m, c in G.items():
+                md = dict(m)
+                term = {tuple((a, p) for a, p in m if a not in recips): c}
+                for a in key:
+                    e = K[a] - md.get(a, 0)
+                    if e:
+                        pw = dpow.get((a, e))
+                        if pw is None:
+                            base = expand(recips[a])
+                            pw = {(): Fraction(1)}
+                            for _ in range(e):
+                                pw = pmul(pw, base)
+                            dpow[(a, e)] = pw
+                        term = pmul(term, pw)
+                Q = padd(Q, term)
+            Q = reduce_sqrt(Q)
+            if Q:
+                # the cleared group still contains reciprocal atoms (nested divisions): iterate on it; otherwise it is non-zero
+                if not any(a in recips for m in Q for a, _ in m):
+                    return False
+                if not rational_zero_poly(Q, recips, expand, pmul, padd, limit):
+                    return False
+        return True
+    return False
+
+
+def rational_zero_poly(P, recips, expand, pmul, padd, limit, depth=0):
+    """Helper of rational_zero: the same grouping test applied to an already expanded polynomial."""
+    if not P:
+        return True
+    if depth > 3:
+        return False
+    groups: Dict[tuple, Dict[tuple, Fraction]] = {}
+    for m, c in P.items():
+        key = tuple(sorted(a for a, _ in m if a in recips))
+        groups.setdefault(key, {})[m] = c
+    for key, G in groups.items():
+        if not key:
+            return False
+        K = {a: max(dict(m).get(a, 0) for m in G) for a in key}
+        Q: Dict[tuple, Fraction] = {}
+        for m, c in G.items():
+            md = dict(m)
+            term = {tuple((a, p) for a, p in m if a not in recips): c}
+            for a in key:
+                e = K[a] - md.get(a, 0)
+                if e:
+                    base = expand(recips[a])
+                    for _ in range(e):
+                        term = pmul(term, base)
+            Q = padd(Q, term)
+        if Q:
+            if not any(a in recips for m in Q for a, _ in m):
+                return False
+            if not rational_zero_poly(Q, recips, expand, pmul, padd, limit, depth + 1):
+                return False
+    return True
